@@ -6,7 +6,7 @@ from ..errors import AnalysisError
 from ..px import OK, PX, RAISE, Outcomes
 from ..pxv import Obj, Sym
 from ..te import ClassRef, Member, TypeRef
-from .util import const, fut, self_obj
+from .util import const, fut, same_class, self_obj
 
 EZ = "bellows.ezsp"
 KNOWN = list(range(4, 15))
@@ -58,7 +58,7 @@ def r09_1(ctx):
     ctx.fn(f)
     for prev in (8, 14):
         holder = {"running": True}
-        px = PX(repo, models=event_models(holder) + [("self._gw.reset", Outcomes(OK(True), RAISE("TimeoutError"), RAISE("ConnectionResetError")))], inline=ez_inline)
+        px = PX(repo, models=event_models(holder) + [("self._gw.reset", Outcomes(OK(True), RAISE("TimeoutError"), RAISE("ConnectionResetError")))], inline=same_class(stop=("handle_callback",)))
 
         def setup():
             holder["running"] = True
@@ -92,7 +92,7 @@ def r09_1(ctx):
             ctx.require(not bad, f"reset:from-v{prev}", f"EZSP.reset from v{prev} [{aw[0].extra if aw else '-'}]: {bad}", func=f, trace=p.trace(14))
     c = repo.func(f"{EZ}:EZSP.connect")
     ctx.fn(c)
-    px = PX(repo, models=[("bellows.uart.connect", Outcomes(OK(Obj(TypeRef("Gateway"), {}, tag="gw"))))], inline=ez_inline)
+    px = PX(repo, models=[("bellows.uart.connect", Outcomes(OK(Obj(TypeRef("Gateway"), {}, tag="gw"))))], inline=same_class(stop=("handle_callback",)))
     for p in px.explore(c, lambda: (self_obj(ez_cls(ctx), {"_gw": None, "_ezsp_version": 4}), {})):
         st = p.store["self"]
         ctx.require(p.terminal == "return" and proto_version(ctx, st.get("_protocol")) == 4 and getattr(st.get("_gw"), "tag", None) == "gw", "connect",
@@ -116,7 +116,7 @@ def r09_2(ctx):
     f = repo.func(f"{EZ}:EZSP.version")
     ctx.fn(f)
     for ncp in KNOWN + [15, 16, 255]:
-        px = PX(repo, models=[("self._command", lambda px_, t, a, k, fr: (ncp, Sym("stack_type"), Sym("stack_version")))], inline=ez_inline)
+        px = PX(repo, models=[("self._command", lambda px_, t, a, k, fr: (ncp, Sym("stack_type"), Sym("stack_version")))], inline=same_class(stop=("handle_callback",)))
 
         def setup():
             return self_obj(ez_cls(ctx), {"_ezsp_version": 4, "_protocol": Obj(repo.cls("bellows.ezsp.v4", "EZSPv4"), {}, tag="v4"), "_gw": Sym("gw")}), {}
@@ -169,7 +169,7 @@ def r09_5(ctx):
                                          ("self._gw.wait_for_startup_reset", Outcomes(OK(None), RAISE("TimeoutError"))),
                                          ("self.reset", do_reset), ("self.version", Outcomes(OK(None))),
                                          ("self._config[conf.CONF_DEVICE_PATH]", lambda *a: "path")]
-        px = PX(repo, models=models, inline=ez_inline)
+        px = PX(repo, models=models, inline=same_class(stop=("handle_callback",)))
 
         def setup():
             holder["running"] = False
